@@ -853,8 +853,8 @@ def run(ck):
             pass
 
         # (8d) zero as a DATUM, as a QUERY and as a LIMIT: the same isotherm with the origin (0, 0) as first adsorption point
-        # TODO(candidate finding, reported): an UPPER limit of zero -- (None, 0), (0, 0) -- is taken for "no limits" by the unchanged tree (`any(limits)`), so on
-        # this twin it returns the whole branch instead of the single point at zero; only a zero LOWER limit is generated here.
+        # zero UPPER limits -- (None, 0), (0, 0), ... -- are generated below under the clause "limits select exactly the stored points inside them"
+        # (finding S60-C03: the tree takes limits whose members are all falsy for "no limits" and returns the whole branch).
         d_rows = idx["des"]
         zp, zl = [0.0] + pa, [0.0] + la_
         z = c02.make_iso(pg, type("W", (), {"mat": iso.material, "ads": iso.adsorbate})(), lab, zp + [ps[i] for i in d_rows], zl + [ls[i] for i in d_rows],
@@ -894,6 +894,27 @@ def run(ck):
                 if not ok:
                     ck.fail_case({**base_sig, "accessor": "PointIsotherm." + what, "clause": "limits select exactly the stored points (lower limit zero, first point at zero)", "units": "requested" if kw_ else "stored"},
                                  {"limits": None if lim is None else [repr(lim[0]), lim[1]], "got": got, "expected": exp})
+        # an UPPER limit of zero is a limit: inside (-inf | 0, 0] lies the origin point only (pressure, loading), nothing of a positive column.
+        # `limits_class` is set only for the PREDICTED outcome of finding S60-C03 (every given limit falsy AND the whole branch returned);
+        # any other wrong selection under the same clause stays a violation.
+        z_es = [float(x) for x in z.data_raw["enthalpy"]][:len(zp)]
+        for lim in ((None, 0), (0, 0), (0.0, 0.0), (None, 0.0), (rng.choice([None, 0, np.float64(0.0)]), rng.choice([np.float64(0.0), np.int64(0), -0.0]))):
+            for acc, call, vals in (("pressure", lambda kw: z.pressure(branch="ads", limits=lim, **kw), zp),
+                                    ("loading", lambda kw: z.loading(branch="ads", limits=lim, **kw), zl),
+                                    ("other_data", lambda kw: z.other_data("enthalpy", branch="ads", limits=lim), z_es)):
+                for kw_ in ({},) if acc == "other_data" else ({}, pkw if acc == "pressure" else olkw):
+                    conv = vals if not kw_ else (zc_p if acc == "pressure" else zc_l)
+                    exp = [v for v in conv if (lim[0] is None or v >= lim[0]) and v <= lim[1]]
+                    ck.count(("zero-upper-limit", acc, repr(lim), bool(kw_)), bucket="limits: upper limit zero")
+                    try:
+                        got = fl(call(kw_))
+                    except Exception as e:  # noqa
+                        got = repr(e)[:160]
+                    if isinstance(got, str) or not vals_eq(got, exp, 1e-10):
+                        sig = {"accessor": "PointIsotherm." + acc, "clause": "limits select exactly the stored points inside them"}
+                        if not any(lim) and not isinstance(got, str) and vals_eq(got, conv, 1e-10):
+                            sig["limits_class"] = "upper limit is zero (all limits falsy)"
+                        ck.fail_case(sig, {"limits": [repr(x) for x in lim], "units": "requested" if kw_ else "stored", "got": got, "expected": exp, "branch_values": conv[:4]})
         ask(" ".join(["colP", tok([frac(x) for x in zp + [ps[i] for i in d_rows]]), mtok(zmarks), "ads", "~", "~", tok(0), tok(zp[2])]),
             ("vals", lambda: z.pressure(branch="ads", limits=(0, zp[2]))), {"accessor": "pressure column", "limits": "(0, stored value), first point at zero"})
         for q in (0.0, pa[0] / 2):
@@ -971,6 +992,19 @@ def run(ck):
                     ck.fail_case({**base_sig, **(fsig if what == "loading" else {}), "accessor": "ModelIsotherm." + what,
                                   "clause": "model points re-expressed in the requested units, strictly inside the limits"},
                                  {"points": npts, "branch": branch, "limits": lim, "got": str(got)[:300], "expected": [float(x) for x in e][:5]})
+            # an upper limit of zero is a limit: no (positive) model point lies strictly below zero (finding S60-C03: taken for "no limits")
+            for lim in ((None, 0), (0, 0), (0.0, 0.0), (None, 0.0)):
+                ck.count(("model-zero-upper-limit", what, repr(lim)), bucket="limits: upper limit zero")
+                try:
+                    got = [float(x) for x in getattr(miso, what)(points=npts, branch=own, limits=lim, **kw)]
+                except Exception as ex:  # noqa
+                    got = repr(ex)[:160]
+                e0 = [x for x in exp if (lim[0] is None or lim[0] < x) and x < lim[1]]
+                if isinstance(got, str) or not vals_eq(got, e0, 1e-9):
+                    sig = {"accessor": "ModelIsotherm." + what, "clause": "limits select exactly the stored points inside them"}
+                    if not any(lim) and not isinstance(got, str) and vals_eq(got, exp, 1e-9):
+                        sig["limits_class"] = "upper limit is zero (all limits falsy)"
+                    ck.fail_case(sig, {"limits": [repr(x) for x in lim], "points": npts, "got": got[:6] if not isinstance(got, str) else got, "expected": [float(x) for x in e0]})
             try:
                 getattr(miso, what)(points=npts, branch=other_b, **kw)
                 ck.fail_case({**base_sig, "accessor": "ModelIsotherm." + what, "clause": "a branch the model was not fitted on is refused"}, {"branch": other_b})
